@@ -53,8 +53,11 @@ def main():
     req = json.load(sys.stdin)
     codes = default_trace_codes()
     results = []
-    for case in req['cases']:
-        parser = TracesParser(codes, {}, {})
+    for ci, case in enumerate(req['cases']):
+        # every other case: the tables already declare the threads of the windows (as after a dump's thread map); what a
+        # composite trace shows comes from its own window, not from the tables
+        declared = {7: 4242, 8: 4343, 0x999: 4444} if (req.get('declared') and ci % 2 == 1) else {}
+        parser = TracesParser(codes, dict(declared), {4242: 'declared-a', 4343: 'declared-b'} if declared else {})
         traces, decs, errs = [], [], []
         for w in case:
             evs = [Kevent(ts, struct.pack('<QQQQ', *vals), tuple(vals), tid, code | q, code, q)
@@ -72,16 +75,24 @@ def main():
                 errs.append(type(ex).__name__)
         cs = []
         try:
-            for c in CallstacksParser([], []).feed_generator(iter(traces)):
+            def desc(c):
                 o = [c.timestamp, c.tid, len(c.frames)]
                 for f in c.frames:
                     o += [f.address, 0] if f.uuid is None else [f.address, 1] + uuid_words(f.uuid) + [f.offset]
-                cs.append(o)
+                return o
+            kept = []
+            for c in CallstacksParser([], []).feed_generator(iter(traces)):
+                cs.append(desc(c))
+                kept.append(c)
+            # a callstack that was handed out is not changed by later samples: described again at the end, it is the same
+            if [desc(c) for c in kept] != cs:
+                cs = [[98]] + [desc(c) for c in kept]
+                errs.append('callstacks:ReportedObjectChangedLater')
         except Exception as ex:
             cs = [[99]]
             errs.append('callstacks:' + type(ex).__name__)
         results.append({'decodes': decs, 'callstacks': cs, 'errors': errs,
-                        'threads_pids': sorted([k, v] for k, v in parser.threads_pids.items())})
+                        'threads_pids': sorted([k, v] for k, v in parser.threads_pids.items() if declared.get(k) != v)})
     json.dump({'results': results}, sys.stdout)
 
 
